@@ -1,0 +1,57 @@
+//go:build verif
+
+package collection
+
+import "github.com/tidwall/tile38/internal/object"
+
+// Exported wrappers for the verification harness (C13). Nothing here is
+// compiled without the "verif" build tag.
+
+// VerifNearbyDist is the distance function Collection.Nearby hands to
+// rtree.Nearby, evaluated on a bare rectangle (item == false): the key a
+// node rectangle gets in the queue, and — on an object's own rectangle — the
+// distance of that object. Metres.
+func VerifNearbyDist(lat, lon, minLat, minLon, maxLat, maxLon float64) float64 {
+	return geodeticDistAlgo([2]float64{lon, lat})(
+		[2]float64{minLon, minLat}, [2]float64{maxLon, maxLat}, nil, false)
+}
+
+// VerifRtreeRect is the float32 widening applied to every rectangle that
+// enters the R-tree (rtreeRect), returned as float64s.
+func VerifRtreeRect(minLat, minLon, maxLat, maxLon float64) (float64, float64, float64, float64) {
+	return float64(rtreeValueDown(minLat)), float64(rtreeValueDown(minLon)),
+		float64(rtreeValueUp(maxLat)), float64(rtreeValueUp(maxLon))
+}
+
+// VerifNodeKey is one evaluation of the distance function on a node
+// rectangle during a Nearby traversal.
+type VerifNodeKey struct {
+	MinLat, MinLon, MaxLat, MaxLon float64 // the node rectangle (float32 values)
+	Key                            float64 // the queue key it received
+}
+
+// VerifNearbyTrace runs the traversal of Collection.Nearby from (lat, lon)
+// with the same distance function and records the key of every node
+// rectangle it evaluates, next to the items in iteration order.
+func (c *Collection) VerifNearbyTrace(lat, lon float64) (nodes []VerifNodeKey, ids []string, dists []float64) {
+	distFn := geodeticDistAlgo([2]float64{lon, lat})
+	c.spatial.Nearby(
+		func(min, max [2]float32, data *object.Object, item bool) float64 {
+			d := distFn(
+				[2]float64{float64(min[0]), float64(min[1])},
+				[2]float64{float64(max[0]), float64(max[1])},
+				data, item,
+			)
+			if !item {
+				nodes = append(nodes, VerifNodeKey{float64(min[1]), float64(min[0]), float64(max[1]), float64(max[0]), d})
+			}
+			return d
+		},
+		func(_, _ [2]float32, o *object.Object, dist float64) bool {
+			ids = append(ids, o.ID())
+			dists = append(dists, dist)
+			return true
+		},
+	)
+	return
+}
